@@ -304,6 +304,28 @@ where
     (lin_s, uia)
 }
 
+/// the FDEs gimli itself lists for the section: (offset, initial, len)
+fn listed_fdes<'a, S>(sec: &S, b: &BaseAddresses, n: usize) -> Option<Vec<(u64, u64, u64)>>
+where
+    S: UnwindSection<R<'a>>,
+    S::Offset: UnwindOffset<usize>,
+{
+    let mut v = Vec::new();
+    let mut it = sec.entries(b);
+    for _ in 0..n + 16 {
+        match it.next() {
+            Ok(None) => return Some(v),
+            Err(_) => return None,
+            Ok(Some(CieOrFde::Cie(_))) => {}
+            Ok(Some(CieOrFde::Fde(p))) => match p.parse(S::cie_from_offset) {
+                Ok(f) => v.push((f.offset() as u64, f.initial_address(), f.len())),
+                Err(_) => return None,
+            },
+        }
+    }
+    None
+}
+
 fn with_oracle(s: String, o: Option<String>) -> String {
     match o {
         Some(w) => format!("{s} #oracle:{w}"),
@@ -466,10 +488,14 @@ pub fn handle(op: &str, a: &[&str]) -> Option<String> {
             let b = bases(b)?;
             let addr: u64 = addr.parse().ok()?;
             let bs = unhex(h)?;
+            let mut listed: Option<Vec<(u64, u64, u64)>> = None;
             let (lin, uia, hdr, huia) = match *k {
                 "eh" => {
                     let mut s = EhFrame::new(&bs, en);
                     s.set_address_size(asz as u8);
+                    if *fdes != "-" {
+                        listed = listed_fdes(&s, &b, bs.len());
+                    }
                     let (lin, uia) = lookup_s(&s, &b, addr);
                     let (hdr, huia) = if *hh == "x" {
                         ("x".to_string(), "x".to_string())
@@ -511,6 +537,9 @@ pub fn handle(op: &str, a: &[&str]) -> Option<String> {
                     }
                     let mut s = DebugFrame::new(&bs, en);
                     s.set_address_size(asz as u8);
+                    if *fdes != "-" {
+                        listed = listed_fdes(&s, &b, bs.len());
+                    }
                     let (lin, uia) = lookup_s(&s, &b, addr);
                     (lin, uia, "x".to_string(), "x".to_string())
                 }
@@ -519,6 +548,12 @@ pub fn handle(op: &str, a: &[&str]) -> Option<String> {
             let mut o = None;
             if *fdes != "-" {
                 let (proper, of) = parse_ofdes(fdes)?;
+                // the abstract list must be what the section encodes (it is, for generated cases; this
+                // also keeps the shrinker from drifting to bytes the list no longer describes)
+                let want: Vec<(u64, u64, u64)> = of.iter().map(|f| (f.off, f.initial, f.len)).collect();
+                if listed.as_ref() != Some(&want) {
+                    return Some(with_oracle(format!("ok lin={lin} uia={uia} hdr={hdr} huia={huia}"), Some("fde-list-differs-from-encoded".into())));
+                }
                 o = oracle_lookup("lin", &lin, &of, addr).or_else(|| oracle_lookup("uia", &uia, &of, addr));
                 if o.is_none() && proper && hdr != "x" {
                     o = oracle_lookup("hdr", &hdr, &of, addr).or_else(|| oracle_lookup("huia", &huia, &of, addr));
@@ -1577,6 +1612,28 @@ pub fn gen(ctx: &Ctx, emit: &mut dyn FnMut(String)) {
                 emit(format!("cfi-entries {m} {k} {e} {asz} {bt} - {sec2}"));
                 let a = ps[rng.below(ps.len() as u64) as usize];
                 emit(format!("cfi-lookup {m} {k} {e} {asz} {bt2} {a} - {sec2} {hh}"));
+            }
+        }
+    }
+    // ---- an FDE that ends exactly at the top of its address space (`end_address` wraps to 0)
+    for (i, asz) in [1u8, 2, 4, 8].iter().enumerate() {
+        for eh in [true, false] {
+            let m64 = mask(*asz);
+            let layout = Layout { asz: *asz, sect: Some(0x40 & m64), text: Some(0x10), data: Some(0x20) };
+            let cie = GCie { fmt64: false, version: if i % 2 == 0 { 1 } else { 3 }, aug: vec![], lsda_enc: 0, pers_enc: 0, fde_enc: 0, v4_asz: *asz, caf: 1, daf: -4, rar: 16, instr: vec![0, 0, 0], aug_pad: 0 };
+            let f0 = GFde { cie: 0, fmt64: false, initial: 0x10, len: 0x10, instr: vec![0, 0], aug_pad: 0 };
+            let f1 = GFde { cie: 0, fmt64: false, initial: m64 - 0x0f, len: 0x10, instr: vec![0], aug_pad: 0 };
+            let spec = SectionSpec { eh, big: i == 1, asz: *asz, layout, cies: vec![cie], fdes: vec![f0, f1], order: vec![GEntry::Cie(0), GEntry::Fde(0), GEntry::Fde(1)] };
+            let Some(enc) = encode_section(&spec, 7) else { continue };
+            let k = if eh { "eh" } else { "df" };
+            let e = if spec.big { "be" } else { "le" };
+            let none = Layout { asz: *asz, sect: None, text: None, data: None };
+            let bt = bases_token(&none, &layout);
+            let sec = hex(&enc.bytes);
+            emit(format!("cfi-entries {m} {k} {e} {asz} {bt} {} {sec}", enc.expect));
+            let ft = ofdes_token(false, &enc.fdes);
+            for a in [m64 - 0x10, m64 - 0x0f, m64 - 1, m64, 0, 0x1f, 0x20] {
+                emit(format!("cfi-lookup {m} {k} {e} {asz} {bt} {a} {ft} {sec} x"));
             }
         }
     }
